@@ -110,6 +110,78 @@ Print bad.
     return len(items)
 
 
+# proof gate: files whose statements are counted as obligations, and the theorems of props/C01.v
+# that must exist and be closed under the global context
+PROOFS = qc.PROOFS + ["lib/Linearizability.v", "proofs/LinearizabilityProofs.v", "models/QueueHistory.v", "proofs/QueueLinProofs.v",
+                      "models/QueueHwCheck.v", "proofs/QueueHwCheckProofs.v"]
+REQUIRED_THEOREMS = ["c01_queue_invariant", "c01_no_nil_dereference", "c01_refines_fifo", "c01_thread_protocol",
+                     "c01_no_loss_dup_invent", "c01_linearizable", "c01_herlihy_wing_linearizable",
+                     "c01_hw_linearization_witness", "c01_fifo_legal_consequences", "c01_hw_definition_rejects", "c01_hw_check_sound"]
+
+# ---- cross-check of the python brute-force monitor against the Coq definition: the extracted checker
+# q_hw_check (coq/models/QueueHwCheck.v; c01_hw_check_sound: true => hw_linearizable) runs on the same
+# implementation histories; the final drain is encoded as Pops of an extra thread after everything else.
+def hw_line(pre, ops, drain, nthreads):
+    evs = []
+    for o in ops:
+        evs.append((o["inv"], 0, "i%d:%s" % (o["tid"], o["op"])))
+        evs.append((o["ret"], 1, "r%d:%s" % (o["tid"], o["res"])))
+    evs.sort()
+    toks = [e[2] for e in evs]
+    for d in list(drain) + [None]:
+        toks.append("i%d:O" % nthreads)
+        toks.append("r%d:pop=%s" % (nthreads, "nil" if d is None else d))
+    return "c01hw pre=%s hist=%s" % (",".join(map(str, pre)), ",".join(toks))
+
+
+def _op(tid, op, inv, ret, res):
+    return dict(tid=tid, op=op, inv=inv, ret=ret, res=res)
+
+
+# hand-made histories (pre, ops, drain), most of them NOT linearizable: both checkers must refuse them
+HW_FIXED = [
+    ([], [_op(0, "P1", 0, 1, "push"), _op(1, "O", 2, 3, "pop=nil")], [1]),           # stale nil Pop
+    ([], [_op(0, "P1", 0, 2, "push"), _op(1, "O", 1, 3, "pop=nil")], [1]),           # same, overlapping: fine
+    ([1], [_op(0, "O", 0, 2, "pop=1"), _op(1, "O", 1, 3, "pop=1")], []),             # value popped twice
+    ([], [_op(0, "P1", 0, 1, "push"), _op(0, "P2", 2, 3, "push"), _op(1, "O", 4, 5, "pop=2")], [1]),  # not FIFO
+    ([], [_op(0, "P1", 0, 1, "push")], []),                                           # value lost (drain empty)
+    ([], [_op(0, "O", 0, 1, "pop=9")], []),                                           # value invented
+    ([], [_op(0, "P1", 0, 3, "push"), _op(1, "P2", 1, 2, "push"), _op(2, "O", 4, 5, "pop=2")], [1]),  # fine: P2 first
+    ([], [_op(0, "P1", 0, 1, "push"), _op(1, "P2", 2, 3, "push"), _op(2, "O", 4, 5, "pop=2")], [1]),  # real-time order violated
+]
+HW_FIXED_EXPECT = [False, True, False, False, False, False, True, False]
+
+
+def hw_crosscheck(chk, binary, cases):
+    impl = common.run_impl(binary, cases)
+    items = []
+    for c, i in zip(cases, impl):
+        out = qc.parse_out(i)
+        if out is None or out["drain"] is None or out["livelock"]:
+            continue
+        pre, ops = qc.history(c, out)
+        if len(ops) > 12 or any(o["ret"] is None or o["res"] == "PANIC" for o in ops):
+            continue
+        nthreads = len(qc.case_fields(c)[1])
+        items.append((c, pre, ops, out["drain"], nthreads, None))
+    for (pre, ops, drain), exp in zip(HW_FIXED, HW_FIXED_EXPECT):
+        items.append(("fixed", pre, ops, drain, 3, exp))
+    lines = [hw_line(pre, ops, drain, nt) for (_, pre, ops, drain, nt, _) in items]
+    res = common.run_model(lines)
+    yes = no = 0
+    for (c, pre, ops, drain, nt, exp), line, r in zip(items, lines, res):
+        py, _ = qc.linearizable(pre, ops, drain)
+        coq = {"lin=1": True, "lin=0": False}.get(r)
+        if coq is None or coq != py or (exp is not None and py != exp):
+            chk.diverge("hw-check-vs-monitor", line, r, "lin=%d" % int(py),
+                        "extracted Coq checker q_hw_check and the python linearizability monitor disagree (or a fixed history is judged wrongly) on history of case %s" % c[:200])
+        yes += int(bool(coq))
+        no += int(coq is False)
+    chk.cov["hw_check_crosschecked"] = len(items)
+    chk.cov["hw_check_linearizable"] = yes
+    chk.cov["hw_check_refused"] = no
+
+
 TRUSTED = [
     "cooperative scheduler harness/internal/coop + verif-tag yield hooks in loom/queue.go (queueLoad/queueCas): one step = one shared access",
     "modelled, not verified: pointer identity of queue nodes as position in the chain (nodes are GC-managed, next CASed from nil once); Go atomics as sequentially consistent steps; goroutine scheduling as arbitrary interleaving of those steps",
@@ -125,7 +197,10 @@ def run(chk):
                        "completion and the final drain. Streams: every interleaving of 2 threads x 1 op; one schedule per (reachable model state, "
                        "enabled thread) edge for 2-3 threads x 1-3 ops; random bursty schedules for 3-4 threads x up to 5 ops. "
                        "non-trivial = schedule interleaves at least two threads; distinct = distinct case line")
-    chk.run_proof_gate(qc.PROOFS)
+    chk.run_proof_gate(PROOFS)
+    missing = [t for t in REQUIRED_THEOREMS if t not in chk.proof.get("theorems", []) or chk.proof.get("assumptions", {}).get(t) != []]
+    if missing:
+        chk.proof_failures.append("props/C01.v: required theorem(s) missing or not closed under the global context: " + ", ".join(missing))
     binary = qc.build_coop(chk)
     if binary:
         from . import pure
@@ -137,6 +212,10 @@ def run(chk):
             chk.cov["vm_compute_crosschecked"] = coq_crosscheck(chk, sample, mo)
         except Exception as ex:
             chk.infra_errors.append("vm_compute cross-check failed: %r" % (ex,))
+        try:
+            hw_crosscheck(chk, binary, streams[1][1][:40] + streams[2][1][:70] + streams[3][1][:140])
+        except Exception as ex:
+            chk.infra_errors.append("hw_check cross-check failed: %r" % (ex,))
     chk.finish(search=search)
 
 
